@@ -565,6 +565,29 @@ def signature(prop, case, res, clause):
     if prop == "C08":
         o = res["jobs"]["E"]["o"] if res else {}
         sig["edit"] = case["ed"][0]["t"] if case["ed"] else ""
+        # known finding KF-C08-2: a surplus parenthesis directly behind the intrinsic operator of an OPERATOR( ) generic spec
+        for e in case["ed"]:
+            if e["t"] == "par" and e["b"] in (2, 3) and e["pos"] <= len(case["out"]):
+                st = render.stmts_of(case["out"])[e["pos"] - 1]
+                new = par_edit(render.stmt_line(st, indent=False), e["a"], e["b"])
+                import re as _re
+                if new and _re.search(r"operator\s*\(\s*(\*\*|//|==|/=|<=|>=|[-+*/<>]|\.[a-z]+\.)\s*[()]\s*\)", new, _re.I):
+                    sig["surplus_parenthesis_behind_the_operator_of_a_generic_spec"] = True
+        if case.get("fam") == "streams":
+            # known finding KF-C08-1: an unlabelled DO closed by an END DO that carries the label of an enclosing labelled DO
+            stack = []
+            for it in case["beh_extra"].get("stream", []) if "stream" in case.get("beh_extra", {}) else []:
+                if it in ("do",) or it.startswith("dol"):
+                    stack.append(it)
+                elif it.startswith("enddo") and it != "enddo":
+                    lab = it[5:]
+                    if stack and stack[-1] == "do" and ("dol" + lab) in stack[:-1]:
+                        sig["unlabelled_do_closed_by_end_do_with_the_label_of_an_enclosing_do"] = True
+                    if stack:
+                        stack.pop()
+                elif it == "enddo" or it.startswith("cont"):
+                    if stack:
+                        stack.pop()
     return sig
 
 
